@@ -16,6 +16,7 @@ use gamedig::verif_hook::{
     Utf16Decoder,
     Utf8Decoder,
     Utf8LengthPrefixedDecoder,
+    Unreal2StringDecoder,
 };
 use stateright::{Checker, Model, Property};
 use std::sync::Mutex;
@@ -420,6 +421,8 @@ enum What {
     VarintClasses,
     Strings,
     Utils,
+    /// Unreal 2 strings (length byte, optional UCS-2 flag and marker byte): all short packets over a boundary alphabet
+    Unreal2Strings,
 }
 
 fn cases(tier: Tier) -> Vec<(String, What)> {
@@ -438,12 +441,56 @@ fn cases(tier: Tier) -> Vec<(String, What)> {
     v.push(("varint decoding: all 1..6-byte encodings by continuation-bit class x 5th-byte nibble".into(), What::VarintClasses));
     v.push(("minecraft strings: as_string / get_string".into(), What::Strings));
     v.push(("u8_lower_upper (all 256), error_by_expected_size (grid)".into(), What::Utils));
+    v.push((format!("unreal 2 string reads: all packets <= {} bytes over 10 symbols x every start position", if tier.is_thorough() { 6 } else { 5 }), What::Unreal2Strings));
     v
 }
 
 pub struct C17;
 
 fn ref_varint(v: i32) -> Vec<u8> { crate::rsm::minecraft::varint(v) }
+
+/// Reference decoder for one Unreal 2 string at the start of `data`, from the format description (node-gamedig
+/// unreal2.js readUnrealString): a length byte; if its top bit is set the text is (length & 0x7f) UCS-2 units, optionally
+/// preceded by a marker byte 01 that some games insert and that is not counted; otherwise the text is Latin-1 up to and
+/// including the terminating NUL (or the rest of the packet if unterminated; a length byte of 0 is the whole string).
+/// Colour escapes (1B and the three characters after it) and control characters 01..1A are removed from the text.
+/// The counted UCS-2 units include the terminating NUL unit, which is not text.
+/// Returns (text if it can be compared, bytes consumed), or None where the bytes cannot hold such a string.
+/// (Text is not compared when it has bytes 80..9F, which the two common Latin-1 tables map differently.)
+fn ref_unreal2_string(data: &[u8]) -> Option<(Option<String>, usize)> {
+    let l = *data.first()?;
+    let (raw, used, comparable): (Vec<char>, usize, bool) = if l >= 0x80 {
+        let n = ((l & 0x7f) as usize) * 2;
+        let start = if data.get(1) == Some(&1) { 2 } else { 1 };
+        let body = data.get(start .. start + n)?;
+        let units: Vec<u16> = body.chunks(2).map(|c| u16::from_le_bytes([c[0], c[1]])).collect();
+        let text = String::from_utf16(&units).ok()?;
+        // the counted units include the terminating NUL unit; a NUL inside the text is not expressible (delimiter)
+        let text = text.trim_end_matches('\0');
+        (text.chars().collect(), start + n, !text.contains('\0'))
+    } else {
+        let pos = data.iter().position(|b| *b == 0).unwrap_or(data.len());
+        let body = &data[pos.min(1) .. pos];
+        (body.iter().map(|b| *b as char).collect(), (pos + 1).min(data.len()), !body.iter().any(|b| (0x80 ..= 0x9f).contains(b)))
+    };
+    let mut out = String::new();
+    let mut skip = 0;
+    for ch in raw {
+        if skip > 0 {
+            skip -= 1;
+            continue;
+        }
+        if ch == '\x1b' {
+            skip = 3;
+            continue;
+        }
+        if ch > '\x00' && ch <= '\x1a' {
+            continue;
+        }
+        out.push(ch);
+    }
+    Some((comparable.then_some(out), used))
+}
 
 impl Prop for C17 {
     fn id(&self) -> &'static str { "C17" }
@@ -705,6 +752,66 @@ impl Prop for C17 {
                                 clip(&format!("{want:?}"), 200),
                                 vec![],
                             );
+                        }
+                    }
+                }
+                ctx.counters.evaluations += n;
+                ctx.counters.states += n;
+                ctx.counters.transitions += n;
+                ctx.sample(serde_json::json!({"case": label, "checks": n}));
+            }
+            What::Unreal2Strings => {
+                // 00 terminator / bare empty, 01 marker and control code, 02 03 small lengths, 41 text, 1B colour escape,
+                // 80 81 82 UCS-2 lengths 0 1 2, D8 high-surrogate lead (as the high byte of a UCS-2 unit), FF
+                const U2SYMS: [u8; 10] = [0x00, 0x01, 0x02, 0x03, 0x41, 0x1B, 0x80, 0x81, 0x82, 0xD8];
+                let max = if tier.is_thorough() { 6 } else { 5 };
+                let mut n = 0u64;
+                for len in 0 ..= max {
+                    let total = U2SYMS.len().pow(len as u32);
+                    for code in 0 .. total {
+                        let mut packet = Vec::with_capacity(len);
+                        let mut c = code;
+                        for _ in 0 .. len {
+                            packet.push(U2SYMS[c % U2SYMS.len()]);
+                            c /= U2SYMS.len();
+                        }
+                        for cursor in 0 ..= len {
+                            n += 1;
+                            if n % 50_000 == 0 {
+                                crate::crumb::mark(ctx.case, &[(n / 50_000) as u32]);
+                            }
+                            let want = ref_unreal2_string(&packet[cursor ..]);
+                            let got = run_pure(|| {
+                                let mut b = Buffer::<LittleEndian>::verif_at(&packet, cursor);
+                                let r = b.read_string::<Unreal2StringDecoder>(None);
+                                (r.map_err(|_| ()), b.current_position(), b.remaining_length())
+                            });
+                            let bad: Option<String> = match (&got, &want) {
+                                (Err((msg, loc)), _) => Some(format!("PANIC at {loc}: {msg}")),
+                                (Ok((Ok(text), pos, rem)), Some((wtext, used))) => {
+                                    if *pos != cursor + used || *pos + *rem != len {
+                                        Some(format!("Ok({text:?}) leaving the reader at {pos} (remaining {rem}); the string and its delimiter end at {}", cursor + used))
+                                    } else if wtext.as_ref().is_some_and(|w| w != text) {
+                                        Some(format!("Ok({text:?}) at {pos}; expected text {:?}", wtext.as_ref().unwrap()))
+                                    } else {
+                                        None
+                                    }
+                                }
+                                (Ok((Ok(text), pos, _)), None) => Some(format!("Ok({text:?}) at {pos} for a string the format cannot hold in these bytes")),
+                                (Ok((Err(()), pos, rem)), w) => {
+                                    if *pos > len || *pos + *rem != len {
+                                        Some(format!("Err leaving the reader at {pos} (remaining {rem}) of {len}"))
+                                    } else if w.is_some() {
+                                        Some(format!("Err for a well-formed string ({w:?})"))
+                                    } else {
+                                        None
+                                    }
+                                }
+                            };
+                            ctx.distinct_key(&(len, packet.get(cursor).copied(), want.as_ref().map(|w| w.1), bad.is_some()));
+                            if let Some(observed) = bad {
+                                ctx.violation("reader:read_string<Unreal2>", &[len as u32, code as u32, cursor as u32], format!("read_string::<Unreal2StringDecoder> on {packet:02x?} at {cursor}"), observed, format!("{want:?} (text, bytes consumed)"), vec![]);
+                            }
                         }
                     }
                 }
